@@ -72,6 +72,12 @@ namespace sqf::runtime
         }
         void push_frame(sqf::runtime::frame frame)
         {
+            // with NAMESPACE do { } selects the namespace for everything it dynamically encloses:
+            // a scope opened inside (call, if, loops, iteration code) keeps the namespace of the scope it is opened in
+            if (!m_frames.empty() && !frame.globals_value_scope_selected())
+            {
+                frame.globals_value_scope(m_frames.back().globals_value_scope());
+            }
             m_frames.push_back(frame);
             m_frames.back().value_stack_pos(m_values.size());
 #ifdef DF__SQF_RUNTIME__ASSEMBLY_DEBUG_ON_EXECUTE
